@@ -100,8 +100,10 @@ def write_if_changed(path: Path, text: str) -> bool:
 def coq_gate() -> list[str]:
     """grep gate: no Admitted/Axiom/... anywhere in the development."""
     bad = []
-    for p in sorted(COQ.rglob("*.v")):
-        if ".work" in p.parts:
+    listed = [COQ / l.strip() for l in (COQ / "_CoqProject").read_text().splitlines() if l.strip().endswith(".v")]
+    for p in sorted(set(listed) | set((COQ / "props").glob("*.v"))):
+        if not p.exists():
+            bad.append(f"{p.relative_to(VERIF)}: listed in _CoqProject but missing")
             continue
         text = strip_coq_comments(p.read_text())
         for i, line in enumerate(text.splitlines(), 1):
